@@ -308,6 +308,13 @@ def merge_terms(ctx, m, c, ta, tb, pa, pb):
     """ite of two V terms, keeping a known constructor at the top (lists, strings, sets ...)."""
     ta, tb = simp(ta), simp(tb)
     ca, cb = smt.ctor(ta), smt.ctor(tb)
+    if (ca == "VSet" or cb == "VSet") and ca != cb and (ca is None or cb is None):
+        # one arm replaced the set, the other kept the (symbolic) original: join the contents
+        aa = ctx.set_arr(pa, Val(ta))
+        ab = ctx.set_arr(pb, Val(tb))
+        sid = next(ctx.alloc)
+        m.sets[sid] = simp(z3.If(c, aa, ab))
+        return V.VSet(z3.IntVal(sid), simp(z3.If(c, V.fz(ta), V.fz(tb))))
     if ca is not None and ca == cb:
         if ca in ("VList", "VTuple", "VStr", "VInt", "VBool", "VFloat"):
             return simp(getattr(V, ca)(z3.If(c, ta.arg(0), tb.arg(0))))
